@@ -31,6 +31,11 @@ CHECKS = {
          "Every expression up to depth 1 over 33 leaves and depth 2 (thorough: 3) over reduced leaf sets is compiled by the real front end; for every IR node and every environment (all values of <=20-value domains, corner alphabets for 8/32/64-bit leaves) min<=v<=max, v congruent to modular_value mod modulus, inferred constants exact, $upper_bound/$lower_bound true bounds, every accepted run-time operation fits int64 or uint64 together with its operands as values, and intervals are attained when no variable repeats.",
          "Trusted: the evaluator in checks/c05.py (cross-checked against the generator's own AST evaluator). Wide leaves on corner alphabets only; back-end type selection is exercised by the C++ checks.",
          "DESIGN.md section 3, C05"),
+ "C13": ("exploration",
+         "bounded-exhaustive enumeration of operator x operand-type tuples x positions, run through the real front end against a documented signature table",
+         "Every operator and function applied to every operand tuple over a 12-atom type alphabet (integer/boolean/enum constants, fields and parameters, a same-named enum from an import, struct and array fields), placed in each of 14 positions (offset, size, three array-dimension positions, condition, field and struct [requires], virtual value, integer and enum parameter argument, enum value, maximum_bits, is_signed); thorough adds depth-2 compositions. Accept iff the documented signature and the position's required type are met; rejected cases must produce a located, non-synthetic error inside the construct; no exception may escape.",
+         "Trusted: signature table in checks/c13.py transcribed from doc/language-reference.md. Unspecified (not compared): ordering comparisons of two values of one enum, enum-valued enum values, struct/array operands of ?: in alias position, $present(parameter) verdict.",
+         "DESIGN.md section 3, C13"),
 }
 NOT_YET = "check not built yet in this round (planned in DESIGN.md section 3); no claim made"
 
